@@ -86,7 +86,7 @@ Proof.
   destruct (publisher s (reqs s r) rho) as [s1 hdr] eqn:P. cbn [fst] in Hs. subst s1.
   assert (Hd : forall t, doomed (enqueue (set_rstate (with_pub s p n l) r (QDone rho hdr)) (HStep (q_task (reqs s r)))) t
                          <-> doomed s t) by (intros t; apply doomed_deliver; auto).
-  destruct H as [Icalls Ipc Idoom Icensus Irtask Ireq Ireqb Ireqo Ibg Isid Isvc Ipass Iroute Iphase Iwait Ibeyond Icount].
+  destruct H as [Icalls Ipc Idoom Icensus Irtask Ireq Ireqb Ireqo Ibg Isid Isvc Ipass Ipreq Iroute Iphase Iwait Ibeyond Icount].
   constructor; try assumption.
   - (* doom *) intros t Ht D. apply Hd in D. exact (Idoom t Ht D).
   - (* req *) intros r' Hr'. sproj. unfold fupd. destruct (Nat.eqb_spec r r') as [<-|Hne]; cbn; [discriminate|]. exact (Ireq r' Hr').
@@ -97,6 +97,7 @@ Proof.
   - (* pass *) intros lt Hlt p0 st r0 Hpc. specialize (Ipass lt Hlt p0 st r0 Hpc).
     destruct Ipass as (A & B & C & D & E). repeat split; try assumption; try tauto.
     intros ND. apply D. intros X. apply ND. apply Hd. exact X.
+  - (* preq *) intros lt p0 st r0 Hlt Hpc. sproj. unfold fupd. destruct (Nat.eqb_spec r r0) as [E|]; [subst r0|]; cbn; exact (Ipreq lt p0 st _ Hlt Hpc).
   - (* route *) intros G. specialize (Iroute G). destruct Iroute as [A B]. split; [exact A|].
     intros lt p0 r0 Hlt Hpc D. apply Hd in D. eapply B; eauto.
   - (* phase *) revert Iphase. unfold phase_ok. sproj. destruct (calls s); [auto|].
@@ -188,7 +189,7 @@ Lemma Inv_call_sub pend s a :
   Inv pend s -> calls s = [] -> Inv (pend ++ [HStep (ntasks s)]) (call s (KSub a)).
 Proof.
   intros H Hc. unfold call, user_busy. rewrite Hc. cbn [existsb]. unfold spawn.
-  destruct H as [Icalls Ipc Idoom Icensus Irtask Ireq Ireqb Ireqo Ibg Isid Isvc Ipass Iroute Iphase Iwait Ibeyond Icount].
+  destruct H as [Icalls Ipc Idoom Icensus Irtask Ireq Ireqb Ireqo Ibg Isid Isvc Ipass Ipreq Iroute Iphase Iwait Ibeyond Icount].
   unfold calls_ok in Icalls. rewrite Hc in Icalls. destruct Icalls as (Hn & Hr & Hs & Hro & Hrt & Hgi).
   rewrite Hn in *. cbn [app].
   constructor.
@@ -205,6 +206,7 @@ Proof.
   - sproj. intros r Hr'. lia.
   - sproj. rewrite Hs, Hro. cbn. repeat split; try constructor. intros x [].
   - sproj. rewrite Hro. split; [intros x v []|intros r Hr'; lia].
+  - sproj. rewrite Hrt. discriminate.
   - sproj. rewrite Hrt. discriminate.
   - sproj. intros _. rewrite Hro. split; [intros x []|]. rewrite Hrt. discriminate.
   - unfold phase_ok. sproj. unfold cur; sproj; cbn [last]. rewrite fupd_eq. cbn. repeat split; auto.
@@ -242,7 +244,7 @@ Lemma Inv_call_unsub pend s :
 Proof.
   intros H Hc. unfold call. destruct (user_busy s) eqn:Hb; [now right|left].
   pose proof (user_busy_false s Hb) as Hdone. unfold spawn.
-  destruct H as [Icalls Ipc Idoom Icensus Irtask Ireq Ireqb Ireqo Ibg Isid Isvc Ipass Iroute Iphase Iwait Ibeyond Icount].
+  destruct H as [Icalls Ipc Idoom Icensus Irtask Ireq Ireqb Ireqo Ibg Isid Isvc Ipass Ipreq Iroute Iphase Iwait Ibeyond Icount].
   set (n := ntasks s).
   set (s' := with_calls (enqueue (with_tasks s (fupd (tasks s) n (mkTask KUnsub PStart false [])) (S n)) (HStep n))
                         (calls s ++ [n])).
@@ -303,6 +305,8 @@ Proof.
     rewrite fupd_neq in Hpc by lia. specialize (Ipass lt Hlt p st r Hpc).
     destruct Ipass as (P1 & P2 & P3 & P4 & P5). repeat split; try assumption; try tauto.
     intros ND. apply P4. intros X. apply ND. revert X. apply doomed_new; [|reflexivity]. sproj. apply fupd_neq. lia.
+  - intros lt p st r Hlt Hpc. subst s'. sproj in Hlt. sproj in Hpc. destruct (Irtask lt Hlt) as [A B].
+    rewrite fupd_neq in Hpc by lia. exact (Ipreq lt p st r Hlt Hpc).
   - intros G. subst s'. sproj in G. specialize (Iroute G). destruct Iroute as [R1 R2]. split.
     + intros x Hx. sproj in Hx. sproj. destruct (R1 x Hx) as [A|[A|A]]; [now left| |].
       * right; left. destruct A as (lt & p & r & A1 & A2 & A3). exists lt, p, r. sproj.
@@ -406,10 +410,12 @@ Lemma Inv_loop_update pend pend' s s' lt k' :
    (forall p r, t_pc k' = PPass p StRenew r -> ~ doomed s' lt)) ->
   ((subs s' = subs s /\ routed s' = routed s) \/ (exists r, r < nreqs s' /\ q_bg (reqs s' r) = true)) ->
   (forall r, nreqs s <= r < nreqs s' -> q_bg (reqs s' r) = true) ->
+  (forall p st r, t_pc k' = PPass p st r ->
+     q_svc (reqs s' r) = p_svc p /\ q_kind (reqs s' r) = (match st with StRenew => QRenew | StFallback => QSub end)) ->
   Inv pend' s'.
 Proof.
-  intros H Hrt Ec Er En Es Eg Et Kk Kpc Knot Kw Kdd Ksr Kch Rle Rold Rown Rnew Rb Ns Nr Ninc Nsvc Kpass Kroute Kbg Kbgn.
-  destruct H as [Icalls Ipc Idoom Icensus Irtask Ireq Ireqb Ireqo Ibg Isid Isvc Ipass Iroute Iphase Iwait Ibeyond Icount].
+  intros H Hrt Ec Er En Es Eg Et Kk Kpc Knot Kw Kdd Ksr Kch Rle Rold Rown Rnew Rb Ns Nr Ninc Nsvc Kpass Kroute Kbg Kbgn Kpreq.
+  destruct H as [Icalls Ipc Idoom Icensus Irtask Ireq Ireqb Ireqo Ibg Isid Isvc Ipass Ipreq Iroute Iphase Iwait Ibeyond Icount].
   destruct (Irtask lt Hrt) as [Hlt Hkl].
   assert (Hnc : ~ In lt (calls s)) by (apply rtask_not_call; assumption).
   assert (Told : forall t, t <> lt -> tasks s' t = tasks s t) by (intros t Ht; rewrite Et; apply fupd_neq; congruence).
@@ -456,6 +462,7 @@ Proof.
     + rewrite Rold by assumption. now apply Isvc.
     + now destruct (Rnew r (conj Hhi Hr)) as (_ & _ & X).
   - (* pass *) intros lt' Hlt'. rewrite Er in Hlt'. assert (lt' = lt) by congruence. subst lt'. exact Kpass.
+  - (* preq *) intros lt' p st r Hlt' Hpc. rewrite Er in Hlt'. assert (lt' = lt) by congruence. subst lt'. rewrite Tnew in Hpc. now apply Kpreq.
   - (* route *) intros G. rewrite Eg in G. destruct (Kroute G) as [R1 R2]. split.
     + intros x Hx. destruct (R1 x Hx) as [A|[A|A]]; [now left|right; now left|right; right].
       unfold unsub_pending in *. rewrite Hcur, En.
@@ -562,7 +569,7 @@ Lemma Inv_susp pend pend' s b lt pn x d v rest :
 Proof.
   intros H Hrt Hnd Hndm Hown B Hv Hx Hnodup Hrest Hch.
   pose proof H as H0.
-  destruct H as [Icalls Ipc Idoom Icensus Irtask Ireq Ireqb Ireqo Ibg Isid Isvc Ipass Iroute Iphase Iwait Ibeyond Icount].
+  destruct H as [Icalls Ipc Idoom Icensus Irtask Ireq Ireqb Ireqo Ibg Isid Isvc Ipass Ipreq Iroute Iphase Iwait Ibeyond Icount].
   destruct (Irtask lt Hrt) as [Hlt Hkl]. destruct B.
   pose proof (not_doomed_must _ _ Hndm) as Hmust.
   assert (Hxr : In x (dkeys (routed b))) by (apply nin_get; congruence).
@@ -598,6 +605,7 @@ Proof.
       rewrite b_tasks0, Hmust in D. destruct D; discriminate.
   - right. exists (nreqs b). split; [lia|]. rewrite fupd_eq. cbn. unfold is_loop. now rewrite b_tasks0, Hkl.
   - intros r Hr. rewrite b_nreqs0 in *. assert (r = nreqs s) by lia. subst r. rewrite fupd_eq. cbn. unfold is_loop. now rewrite b_tasks0, Hkl.
+  - intros p st r Hpc. cbn in Hpc. injection Hpc as <- <- <-. rewrite b_nreqs0, fupd_eq. cbn. auto.
 Qed.
 
 Lemma Base_ghost s b o : Base s b -> Base s (with_ghost b o (g_inflight b) (g_maxdur b)).
@@ -616,7 +624,7 @@ Lemma Inv_loop_finish pend pend' s b lt :
 Proof.
   intros H Hrt Hnd Hndm Hown B Esubs Hch.
   pose proof H as H0.
-  destruct H as [Icalls Ipc Idoom Icensus Irtask Ireq Ireqb Ireqo Ibg Isid Isvc Ipass Iroute Iphase Iwait Ibeyond Icount].
+  destruct H as [Icalls Ipc Idoom Icensus Irtask Ireq Ireqb Ireqo Ibg Isid Isvc Ipass Ipreq Iroute Iphase Iwait Ibeyond Icount].
   destruct (Irtask lt Hrt) as [Hlt Hkl]. destruct B.
   eapply Inv_loop_update with (s := s) (lt := lt) (k' := mkTask KLoop (PDone (SRet None)) false []);
     try eassumption; sproj; try assumption; try reflexivity.
@@ -635,6 +643,7 @@ Proof.
     + intros p r Hpc. discriminate.
   - rewrite b_nreqs0, b_reqs0. exact b_bg0.
   - intros r Hr. rewrite b_nreqs0 in Hr. lia.
+  - intros p st r Hpc. discriminate.
 Qed.
 
 Lemma Inv_loop_sleep pend pend' s b lt w :
@@ -646,7 +655,7 @@ Lemma Inv_loop_sleep pend pend' s b lt w :
 Proof.
   intros H Hrt Hnd Hndm Hown B Hch.
   pose proof H as H0.
-  destruct H as [Icalls Ipc Idoom Icensus Irtask Ireq Ireqb Ireqo Ibg Isid Isvc Ipass Iroute Iphase Iwait Ibeyond Icount].
+  destruct H as [Icalls Ipc Idoom Icensus Irtask Ireq Ireqb Ireqo Ibg Isid Isvc Ipass Ipreq Iroute Iphase Iwait Ibeyond Icount].
   destruct (Irtask lt Hrt) as [Hlt Hkl]. destruct B.
   pose proof (not_doomed_must _ _ Hndm) as Hmust.
   eapply Inv_loop_update with (s := s) (lt := lt) (k' := mkTask KLoop (PSleep w WPending) false (t_waiters (tasks s lt)));
@@ -666,6 +675,7 @@ Proof.
     + intros p r Hpc. discriminate.
   - rewrite b_nreqs0, b_reqs0. exact b_bg0.
   - intros r Hr. rewrite b_nreqs0 in Hr. lia.
+  - intros p st r Hpc. discriminate.
 Qed.
 
 Lemma Inv_run_pass pend rest0 s b lt :
@@ -832,6 +842,7 @@ Proof.
       exfalso. destruct A as (lt' & p & r & A1 & A2 & _). assert (lt' = lt) by congruence. subst. eapply R2; eauto.
     + intros p r Hpc. discriminate.
   - intros r Hr. lia.
+  - intros p st r Hpc. discriminate.
 Qed.
 
 (* the renewal task receives the response it was waiting for *)
@@ -928,6 +939,7 @@ Proof.
         destruct (Hroute G z Hz) as [A|[[_ A]|A]]; [now left|contradiction|now right; right].
       * right. exists (nreqs s). split; [lia|]. rewrite fupd_eq. cbn. unfold is_loop. now rewrite Hkl.
       * intros r' Hr'. assert (r' = nreqs s) by lia. subst r'. rewrite fupd_eq. cbn. unfold is_loop. now rewrite Hkl.
+      * intros p' st' r' Hpc'. cbn in Hpc'. injection Hpc' as <- <- <-. rewrite fupd_eq. cbn. auto.
     + (* unreachable *)
       apply Err; [|reflexivity|reflexivity]. constructor; sproj; try reflexivity; auto; try (right; exact Hbgr).
       * now apply nnd_del.
@@ -960,6 +972,7 @@ Proof.
         destruct (Hroute G z Hz) as [A|[[_ A]|A]]; [now left|contradiction|now right; right].
       * right. exists (nreqs s). split; [lia|]. rewrite fupd_eq. cbn. unfold is_loop. now rewrite Hkl.
       * intros r' Hr'. assert (r' = nreqs s) by lia. subst r'. rewrite fupd_eq. cbn. unfold is_loop. now rewrite Hkl.
+      * intros p' st' r' Hpc'. cbn in Hpc'. injection Hpc' as <- <- <-. rewrite fupd_eq. cbn. auto.
   - (* the fresh SUBSCRIBE after a refused renewal *)
     assert (Bs : Base s s).
     { constructor; auto. intros G z Hz. destruct (Hroute G z Hz) as [A|[[A _]|A]]; [now left|discriminate|now right]. }
@@ -999,11 +1012,11 @@ Lemma Inv_update1 pend pend' s s' t k' :
   (g_inflight s' = false ->
    (forall x, In x (dkeys (routed s')) -> In x (dkeys (subs s')) \/ inflight s' x \/ unsub_pending s' x) /\
    (forall lt p r, rtask s' = Some lt -> pcof s' lt = PPass p StRenew r -> ~ doomed s' lt)) ->
-  phase_ok s' -> count_ok pend' s' ->
+  phase_ok s' -> count_ok pend' s' -> kindof s t <> KLoop ->
   Inv pend' s'.
 Proof.
-  intros H Ht Ec En Es Et Kk Kpc Kw Kdm Kmono Kkids Krt Kloop Rle Rold Rown Rnew Rb Nsid Nsvc Kpass Kroute Kphase Kcount.
-  destruct H as [Icalls Ipc Idoom Icensus Irtask Ireq Ireqb Ireqo Ibg Isid Isvc Ipass Iroute Iphase Iwait Ibeyond Icount].
+  intros H Ht Ec En Es Et Kk Kpc Kw Kdm Kmono Kkids Krt Kloop Rle Rold Rown Rnew Rb Nsid Nsvc Kpass Kroute Kphase Kcount Hnl.
+  destruct H as [Icalls Ipc Idoom Icensus Irtask Ireq Ireqb Ireqo Ibg Isid Isvc Ipass Ipreq Iroute Iphase Iwait Ibeyond Icount].
   assert (Told : forall t', t' <> t -> tasks s' t' = tasks s t') by (intros t' Hne; rewrite Et; apply fupd_neq; congruence).
   assert (Tnew : tasks s' t = k') by (rewrite Et; apply fupd_eq).
   assert (Kind : forall t', kindof s' t' = kindof s t').
@@ -1054,6 +1067,11 @@ Proof.
   - (* svc *) rewrite Es. split; [exact Nsvc|]. intros r Hr. destruct (Nat.lt_ge_cases r (nreqs s)) as [Hlo|Hhi].
     + rewrite Rold by assumption. now apply Isvc.
     + now destruct (Rnew r (conj Hhi Hr)) as (_ & _ & X & _).
+  - (* preq *) intros lt p st r Hlt Hpc.
+    assert (Hlt0 : rtask s = Some lt) by (destruct Krt as [E|[E _]]; rewrite E in Hlt; [exact Hlt|discriminate]).
+    destruct (Irtask lt Hlt0) as [L1 L2]. assert (lt <> t) by (intros ->; contradiction).
+    rewrite Told in Hpc by assumption. rewrite Rold; [now apply (Ipreq lt p st r)|].
+    eapply Ireqb; [exact L1|]. rewrite Hpc. reflexivity.
   - (* wait *) intros t' Ht' h Hh. rewrite En in Ht'. destruct (Nat.eq_dec t' t) as [->|Hne].
     + rewrite Tnew in Hh. now apply Kw.
     + rewrite Told in Hh by assumption. eapply Iwait; eauto.
@@ -1126,7 +1144,7 @@ Proof.
   set (N := ntasks s) in *. set (n := length sids) in *.
   set (s' := set_pc (spawn_kids b c sids) c (PUnsubGather n re)).
   pose proof H as H0.
-  destruct H as [Icalls Ipc Idoom Icensus Irtask Ireq Ireqb Ireqo Ibg Isid Isvc Ipass Iroute Iphase Iwait Ibeyond Icount].
+  destruct H as [Icalls Ipc Idoom Icensus Irtask Ireq Ireqb Ireqo Ibg Isid Isvc Ipass Ipreq Iroute Iphase Iwait Ibeyond Icount].
   assert (Hcin : In c (calls s)) by (rewrite <- Hcur; now apply cur_in).
   assert (HcN : c < N).
   { unfold calls_ok in Icalls. destruct (calls s); [congruence|]. destruct Icalls as (_ & _ & X & _). now apply X. }
@@ -1193,6 +1211,7 @@ Proof.
   - (* sid *) subst s'. sproj. rewrite A6, A7, Bsu, Bro. destruct Isid as (_ & X & _). repeat split; [constructor|exact X|intros y []].
   - (* svc *) subst s'. sproj. rewrite A5, A7, A10, A11, Bs, Bro, Br, Bnr. exact Isvc.
   - (* pass *) intros lt Hlt. subst s'. sproj in Hlt. congruence.
+  - (* preq *) intros lt p st r Hlt. subst s'. sproj in Hlt. congruence.
   - (* route *) intros G. assert (G' : g_inflight b = false) by (subst s'; sproj in G; congruence). split.
     + intros x Hx. right; right. right. assert (Hx' : In x (dkeys (routed s))) by (subst s'; sproj in Hx; congruence).
       destruct (in_nth_ex sids x (Hsids G' x Hx')) as (i & Hi & Ei).
@@ -1241,7 +1260,7 @@ Lemma Inv_call_finish pend pend' s b c st :
 Proof.
   intros H Hc Hcur Hnd Bt Bn Bc Bs Br Bnr Bro Bsu Brt Hgs Hld Hkids Hnp Hst Hro Hch.
   pose proof H as H0.
-  destruct H as [Icalls Ipc Idoom Icensus Irtask Ireq Ireqb Ireqo Ibg Isid Isvc Ipass Iroute Iphase Iwait Ibeyond Icount].
+  destruct H as [Icalls Ipc Idoom Icensus Irtask Ireq Ireqb Ireqo Ibg Isid Isvc Ipass Ipreq Iroute Iphase Iwait Ibeyond Icount].
   assert (Hcin : In c (calls s)) by (rewrite <- Hcur; now apply cur_in).
   assert (HcN : c < ntasks s).
   { unfold calls_ok in Icalls. destruct (calls s); [congruence|]. destruct Icalls as (_ & _ & X & _). now apply X. }
